@@ -488,7 +488,9 @@ class Optic:
             'solves': self.solves.to_dict()
         }
 
-        data['wavelengths']['polarization'] = self.polarization
+        data['wavelengths']['polarization'] = self.polarization \
+            if isinstance(self.polarization, str) \
+            else self.polarization.to_dict()
         data['fields']['field_type'] = self.field_type
         data['fields']['object_space_telecentric'] = self.obj_space_telecentric
         return data
@@ -512,7 +514,10 @@ class Optic:
         optic.pickups = PickupManager.from_dict(optic, data['pickups'])
         optic.solves = SolveManager.from_dict(optic, data['solves'])
 
-        optic.polarization = data['wavelengths']['polarization']
+        polarization = data['wavelengths']['polarization']
+        if isinstance(polarization, dict):
+            polarization = PolarizationState.from_dict(polarization)
+        optic.polarization = polarization
         optic.field_type = data['fields']['field_type']
         optic.obj_space_telecentric = \
             data['fields']['object_space_telecentric']
